@@ -89,7 +89,7 @@ def run(ctx):
             if miss is not None: bad = 'the quadruple %r is never split into two simultaneous pairs' % (miss,)
         if bad: ctx.violation('C18 pair_within_simultaneously(range(%d)): %s' % (n, bad), rp)
     # symmetric / binned variants: quadruples whose bin indices xor to zero must be covered
-    for nf in range(2, N(9, 16)):
+    for nf in range(2, N(9, 12)):
         for ns in range(0, N(4, 5)):
             if 2 ** ns > 2 * nf: continue
             lab = list(range(2 * nf)); rp = {'call': 'pair_within_simultaneously_symmetric', 'num_fermions': nf, 'num_symmetries': ns}
